@@ -153,6 +153,44 @@ func Load(roots []string, extraEnv []string, overlay map[string][]byte) (*Progra
 func (p *Program) AllFuncs() map[*ssa.Function]bool {
 	if p.allFuncs == nil {
 		p.allFuncs = ssautil.AllFunctions(p.SSA)
+		// ssautil.AllFunctions only follows what is reachable from exported API and
+		// runtime types; who-may-call rules need EVERY declared function of the
+		// module packages, also the methods of unexported types.
+		var add func(f *ssa.Function)
+		add = func(f *ssa.Function) {
+			if f == nil || p.allFuncs[f] {
+				return
+			}
+			p.allFuncs[f] = true
+			for _, an := range f.AnonFuncs {
+				add(an)
+			}
+		}
+		for _, sp := range p.SSAPkgs {
+			for _, m := range sp.Members {
+				switch x := m.(type) {
+				case *ssa.Function:
+					add(x)
+				case *ssa.Type:
+					for _, t := range []types.Type{x.Type(), types.NewPointer(x.Type())} {
+						ms := p.SSA.MethodSets.MethodSet(t)
+						for i := 0; i < ms.Len(); i++ {
+							if fn, ok := ms.At(i).Obj().(*types.Func); ok && fn.Pkg() == sp.Pkg {
+								if tp, isNamed := x.Type().(*types.Named); isNamed && tp.TypeParams().Len() > 0 {
+									continue
+								}
+								add(p.SSA.MethodValue(ms.At(i)))
+							}
+						}
+					}
+				}
+			}
+		}
+		for f := range p.allFuncs {
+			for _, an := range f.AnonFuncs {
+				add(an)
+			}
+		}
 		n := 0
 		for f := range p.allFuncs {
 			if f.Blocks != nil {
